@@ -55,7 +55,7 @@ def run_impl(kind, c, hint, outcome):
         srv.on_received_request(init_line(kind, hint, outcome))
         msgs = fixture.drain(srv)
         ka = srv.keep_alive
-        ska = srv._request_manager._reply_sender._keepalive
+        ska = fixture.sender_keepalive(fixture.find_sender(srv))
         inited = any(cl[0] == 'initialize' for cl in ad.calls)
     return before, ka, ska, msgs, inited
 
